@@ -171,3 +171,86 @@ Lemma window_ignored_inside_minute_refuted : forall F, f_cron_window_inclusive F
   let c := {| cw_window_s := 10; cw_min_interval_s := 5; cw_tolerance_s := 5; cw_strict := true |} in
   cron_sat (fun m => Z.eqb m 0) F c (51 * US) None = true.
 Proof. intros F H. unfold cron_sat, attributed, window_ok. cbn. rewrite H. reflexivity. Qed.
+
+(* ------------------------------------------------------------------ several runners with their own caches *)
+Section Runners.
+Variable sched : Z -> bool.
+Variable F : facts.
+
+Lemma opt_eqb_refl : forall a, opt_eqb a a = true.
+Proof. intros [x|]; cbn [opt_eqb]; [apply Z.eqb_refl|reflexivity]. Qed.
+
+(* a poll that fires is later than the last execution it was evaluated against *)
+Lemma sat_last_lt : forall c ts l, cron_sat sched F c ts (Some l) = true -> l < ts.
+Proof.
+  intros c ts l H. unfold cron_sat in H.
+  destruct (attributed sched c ts) as [[p d]|] eqn:Ea; [|discriminate].
+  apply attributed_sound in Ea. destruct Ea as [_ [Hle _]].
+  apply andb_prop in H. destruct H as [_ H]. apply andb_prop in H. destruct H as [_ H].
+  apply Z.ltb_lt in H. lia.
+Qed.
+
+Lemma runner_poll_fixed : forall c st cache ts,
+  f_cron_storage_read_always F = true -> facts_ok F -> cache_le st cache ->
+  match runner_poll sched F c st cache ts with
+  | (st1, c1, b) => b = store_sat sched F c ts st /\ st1 = (if b then Some ts else st) /\ cache_le st1 c1
+  end.
+Proof.
+  intros c st cache ts Hra Hok Hle. unfold runner_poll. rewrite Hra.
+  destruct cache as [l|].
+  - destruct st as [l'|]; [|destruct Hle]. cbn [cache_le] in Hle.
+    destruct (cron_sat sched F c ts (Some l)) eqn:E; cbn [negb].
+    + destruct (store_sat sched F c ts (Some l')) eqn:Es.
+      * rewrite opt_eqb_refl. split; [reflexivity|]. split; [reflexivity|]. cbn [cache_le]. lia.
+      * split; [reflexivity|]. split; [reflexivity|]. cbn [cache_le]. lia.
+    + split.
+      * cbn [store_sat]. destruct (cron_sat sched F c ts (Some l')) eqn:E2; [|reflexivity].
+        pose proof (sat_antitone_last sched F c ts l l' Hok Hle E2) as E3. rewrite E3 in E. discriminate.
+      * split; [reflexivity|]. cbn [cache_le]. exact Hle.
+  - destruct (store_sat sched F c ts st) eqn:Es.
+    + rewrite opt_eqb_refl. split; [reflexivity|]. split; [reflexivity|]. cbn [cache_le]. lia.
+    + split; [reflexivity|]. split; [reflexivity|]. destruct st as [l'|]; cbn [cache_le]; [lia|exact I].
+Qed.
+
+Lemma Forall_upd : forall {A} (P : A -> Prop) i x l, Forall P l -> P x -> Forall P (upd i x l).
+Proof.
+  intros A P i x l H Hx. revert i. induction H as [|y r Hy Hr IH]; intros i; destruct i as [|j]; cbn [upd];
+    constructor; try assumption. apply IH.
+Qed.
+
+Lemma Forall_nth_default : forall {A} (P : A -> Prop) i d l, Forall P l -> P d -> P (nth i l d).
+Proof.
+  intros A P i d l H Hd. revert i. induction H as [|y r Hy Hr IH]; intros i; destruct i; cbn [nth]; try assumption. apply IH.
+Qed.
+
+(* with the store read on every poll the runner caches are invisible: any assignment of the polls to runners gives
+   the outcomes of one runner polling alone *)
+Theorem mr_polls_fixed : forall c,
+  f_cron_storage_read_always F = true -> facts_ok F ->
+  forall ps st caches, Forall (cache_le st) caches ->
+  mr_polls sched F c st caches ps = store_polls sched F c st (map snd ps).
+Proof.
+  intros c Hra Hok ps. induction ps as [|[r ts] rest IH]; intros st caches Hall; cbn [mr_polls store_polls map snd]; [reflexivity|].
+  pose proof (runner_poll_fixed c st (nth r caches None) ts Hra Hok
+                (Forall_nth_default (cache_le st) r None caches Hall I)) as Hp.
+  destruct (runner_poll sched F c st (nth r caches None) ts) as [[st1 c1] b].
+  destruct Hp as [Hb [Hst Hc1]]. rewrite <- Hb.
+  assert (Hall1 : Forall (cache_le st1) (upd r c1 caches)).
+  { apply Forall_upd; [|exact Hc1]. rewrite Forall_forall in *. intros cj Hj. specialize (Hall cj Hj).
+    destruct b; subst st1; [|exact Hall].
+    destruct cj as [l|]; [|exact I]. cbn [cache_le] in *. destruct st as [l'|]; [|destruct Hall].
+    symmetry in Hb. cbn [store_sat] in Hb. apply sat_last_lt in Hb. lia. }
+  destruct b; subst st1; f_equal; apply IH; exact Hall1.
+Qed.
+End Runners.
+
+(* when a runner goes on with its cached value instead, a tick is lost: every minute scheduled, runner 0 fires the
+   first tick, runner 1 the second; runner 0's cache is stale at the third, its compare-and-swap fails, nothing fires *)
+Lemma stale_cache_loses_tick_refuted : forall F, f_cron_storage_read_always F = false ->
+  f_cron_window_inclusive F = true -> f_cron_min_interval_strict F = true -> f_cron_first_poll_checked F = true ->
+  let c := {| cw_window_s := 60; cw_min_interval_s := 50; cw_tolerance_s := 30; cw_strict := false |} in
+  mr_polls (fun _ => true) F c None [None; None] [(0%nat, 10 * US); (1%nat, 70 * US); (0%nat, 130 * US)] = [true; true; false]
+  /\ store_polls (fun _ => true) F c None [10 * US; 70 * US; 130 * US] = [true; true; true].
+Proof.
+  intros F H1 H2 H3 H4. destruct F. cbn in H1, H2, H3, H4. subst. split; vm_compute; reflexivity.
+Qed.
